@@ -151,11 +151,26 @@ func dumpFunc(p *Prog, name string) {
 	for _, rp := range ff.RetPoints(vi) {
 		fmt.Printf(" return @%s outcome=%d\n", p.Pos(rp.Ret.Pos()), rp.Outcome)
 		for _, v := range rp.Vals {
-			fmt.Printf("   val  %s\n", s.Of(v))
+			fmt.Printf("   val  %s\n", clip(s.Of(v).String(), 600))
 		}
-		for _, a := range rp.Facts {
-			fmt.Printf("   fact kind=%d pol=%v %s\n", a.Kind, a.Pol, s.Of(a.V))
+		if os.Getenv("DUMP_FACTS") != "" {
+			for _, a := range rp.Facts {
+				fmt.Printf("   fact kind=%d pol=%v %s\n", a.Kind, a.Pol, clip(s.Of(a.V).String(), 300))
+			}
 		}
+		if rp.Outcome != Fails {
+			rpc := rp
+			items := p.ReadSequence(s, &rpc)
+			fmt.Printf("   reads %s\n", readSeqString(items))
+			for _, it := range items {
+				if k, ok := p.tagCheck(s, &rpc, it); ok {
+					fmt.Printf("   tag check on %s == %s\n", it, k)
+				}
+			}
+		}
+	}
+	if os.Getenv("DUMP_CALLS") == "" {
+		return
 	}
 	fmt.Println(" calls:")
 	for _, b := range fn.Blocks {
